@@ -168,6 +168,13 @@ func VerifE06ListUsers() {
 	if b := vt.ParamInt("breadth", 0); b > 0 {
 		opts = append(opts, WithResolveNodeBreadthLimit(uint32(b)))
 	}
+	maxres := vt.ParamInt("maxres", 0)
+	if maxres > 0 {
+		// C20: a result limit - the collector stops early and cancels; every expansion goroutine must still come to
+		// an end (a goroutine left blocked when the harness ends is reported by the engine), and what is returned
+		// must be permitted users, at most `maxres` of them
+		opts = append(opts, WithListUsersMaxResults(uint32(maxres)))
+	}
 	// "ctx" = k: the first k valid candidates travel as contextual tuples of the request instead of being
 	// stored (the reference counts them like stored tuples)
 	var ctxTuples []*openfgav1.TupleKey
@@ -256,6 +263,11 @@ func VerifE06ListUsers() {
 		if k >= 0 {
 			vt.Assert(permitted[k], "listusers: returned a user the semantics does not permit")
 		}
+	}
+	if maxres > 0 {
+		vt.Reach("limited")
+		vt.Assert(len(got) <= maxres, "listusers: more users than the result limit")
+		return // completeness is not claimed under a limit
 	}
 	hasWild := wild != "" && verifE06Index(got, wild) >= 0
 	for i, s := range subjects {
